@@ -266,6 +266,22 @@ def one(ctx, c, setname, a, transports, do_transports, rng):
                     ctx.count("deep_copies_checked")
                 except Exception as e:  # noqa: BLE001
                     ctx.fail("C03:%s.deepcopy_raises" % c.name, "copy.deepcopy(command) raised %s" % e, {"cmd": c.name, "args": a}, exc=e)
+            if not c.custom and not a.get("_huge") and ctx.evaluations % 5 == 0 and not isinstance(cmd.datain, Huge) and not isinstance(cmd.dataout, Huge):
+                # a command object recycled for the next step of a loop (cmd.__init__(...) again, with other arguments): the buffers
+                # are those of the request it now stands for
+                a2 = harness.random_args(c, rng, cap=4096)
+                full2 = dict(harness.defaults(c))
+                full2.update(a2)
+                try:
+                    type(cmd).__init__(cmd, c.opcode_obj(setname), **harness.call_kwargs(c, a2))
+                    ctx.count("recycled_command_objects")
+                    check_buffers(ctx, c, setname, "recycled_object", full2, cmd.cdb, cmd.datain, cmd.dataout)
+                except Exception as e:  # noqa: BLE001
+                    ctx.fail("C03:%s.recycled_object_raises.%s" % (c.name, type(e).__name__), "initialising an existing %s object again raised %s" % (c.name, e), {"cmd": c.name, "args": a2}, exc=e)
+                try:
+                    cmd = harness.construct(c, setname, a)
+                except Exception:  # noqa: BLE001
+                    return
             if not c.facade or not do_transports:
                 return
             foreign_keywords(ctx, c, setname, a, full)
